@@ -1,6 +1,7 @@
 import RubyTi.Proofs.ConfigLemmas
 import RubyTi.Model.Frame
 import RubyTi.Props.C19
+import RubyTi.Model.Namespace
 
 /-!
 # C27 — same-named classes in different namespaces do not interfere (key algebra)
@@ -14,6 +15,11 @@ maps, where the frame of `module M … class C` is computed by `SeparateNameSpac
   different, hence every key of the one class group differs from every key of the other;
 * `decoy_invisible`: writes under the decoy's frame leave every lookup under the group's frame
   unchanged (C19's map lemma specialised to frames).
+* `superclass_innermost` / `superclass_defined` / `superclass_self`: the lexical lookup of an
+  unqualified superclass (`FindDefinedClassFrame`) returns an enclosing namespace in which the
+  class is defined, at least as inner as ANY enclosing namespace that defines it (a same-named
+  class further out never wins), the class's own namespace when it is defined there, and the top
+  level only when no enclosing namespace defines it.
 How the class/module evaluators use these functions is checked end-to-end: a generated class
 group at top level, wrapped in one or two modules, and next to a same-named decoy.
 -/
@@ -76,5 +82,68 @@ theorem decoy_invisible {ν} (t : Table FrameKey ν) (decoy : List (FrameKey × 
 
 example : plainName "Mm".toList ∧ "Mm".toList ≠ "Nn".toList := by
   refine ⟨⟨by decide, by decide⟩, by decide⟩
+
+/-! ## lexical superclass lookup -/
+section
+open RubyTi.Namespace
+
+theorem superclass_suffix (tbl : Defined) (cls : Str) (segs : List Str) :
+    findDefined tbl cls segs <:+ segs := by
+  induction segs with
+  | nil => simp [findDefined]
+  | cons s outer ih =>
+    simp only [findDefined]
+    split
+    · exact List.suffix_refl _
+    · exact List.IsSuffix.trans ih (List.suffix_cons s outer)
+
+/-- a non-top-level answer is a namespace in which the class is defined -/
+theorem superclass_defined (tbl : Defined) (cls : Str) (segs : List Str)
+    (h : findDefined tbl cls segs ≠ []) : isDefined tbl (findDefined tbl cls segs) cls = true := by
+  induction segs with
+  | nil => simp [findDefined] at h
+  | cons s outer ih =>
+    simp only [findDefined] at h ⊢
+    split
+    · assumption
+    · rename_i hn; simp only [hn] at h; exact ih (by simpa using h)
+
+/-- **innermost wins**: every enclosing namespace `p` that defines the class encloses the answer -/
+theorem superclass_innermost (tbl : Defined) (cls : Str) (segs p : List Str)
+    (hp : p <:+ segs) (hne : p ≠ []) (hd : isDefined tbl p cls = true) :
+    p <:+ findDefined tbl cls segs := by
+  induction segs with
+  | nil => simp at hp; exact absurd hp hne
+  | cons s outer ih =>
+    simp only [findDefined]
+    split
+    · exact hp
+    · rename_i hn
+      rcases List.suffix_cons_iff.mp hp with rfl | h
+      · simp [hd] at hn
+      · exact ih h
+
+theorem superclass_self (tbl : Defined) (cls : Str) (segs : List Str) (hne : segs ≠ [])
+    (hd : isDefined tbl segs cls = true) : findDefined tbl cls segs = segs := by
+  cases segs with
+  | nil => exact absurd rfl hne
+  | cons s outer => simp [findDefined, hd]
+
+/-- the top level is answered only when no enclosing namespace defines the class -/
+theorem superclass_toplevel (tbl : Defined) (cls : Str) (segs : List Str)
+    (h : findDefined tbl cls segs = []) : ∀ p, p <:+ segs → p ≠ [] → isDefined tbl p cls = false := by
+  intro p hp hne
+  cases hd : isDefined tbl p cls with
+  | false => rfl
+  | true =>
+    have := superclass_innermost tbl cls segs p hp hne hd
+    rw [h] at this
+    simp at this
+    exact absurd this hne
+
+/-- non-vacuity: `Core` defined in `Api` and in `Api::V1`; seen from `Api::V1` the inner one is found -/
+example : findDefined [(["Api".toList], "Core".toList), (["V1".toList, "Api".toList], "Core".toList)] "Core".toList
+    ["V1".toList, "Api".toList] = ["V1".toList, "Api".toList] := by decide
+end
 
 end RubyTi.C27
